@@ -715,9 +715,21 @@ func main() {
 	func() {
 		names := []string{"cardLoopBound", "cardTerm", "cardZeroTest", "cardCond", "cardThen", "cardElse"}
 		fd := funcs["HyperLogLog.Cardinality"]
+		// every name is emitted exactly once (a shape that is recognised only in part must give a failing
+		// obligation, not a Lean file that does not compile)
+		vals := map[string]string{}
+		defer func() {
+			for _, n := range names {
+				v, ok := vals[n]
+				if !ok {
+					v = unknown("Cardinality: not reached")
+				}
+				def(n, "Ex", v)
+			}
+		}()
 		bad := func(why string) {
 			for _, n := range names {
-				def(n, "Ex", unknown("Cardinality: "+why))
+				vals[n] = unknown("Cardinality: " + why)
 			}
 		}
 		if fd == nil {
@@ -742,7 +754,7 @@ func main() {
 		if as, ok := loop.Init.(*ast.AssignStmt); ok && len(as.Lhs) == 1 {
 			s.addLoc(as.Lhs[0].(*ast.Ident).Name, 63)
 		}
-		def("cardLoopBound", "Ex", s.tr(loop.Cond, 0).ex)
+		vals["cardLoopBound"] = (s.tr(loop.Cond, 0).ex)
 		term, zero := unknown("Cardinality: no `registerSum += …`"), unknown("Cardinality: no zero test")
 		for _, st := range loop.Body.List {
 			if s.bind(st, mut) {
@@ -761,8 +773,8 @@ func main() {
 				}
 			}
 		}
-		def("cardTerm", "Ex", term)
-		def("cardZeroTest", "Ex", zero)
+		vals["cardTerm"] = (term)
+		vals["cardZeroTest"] = (zero)
 		i++
 		for i < len(fd.Body.List) && s.bind(fd.Body.List[i], mut) {
 			i++
@@ -773,14 +785,14 @@ func main() {
 		}
 		is, ok := fd.Body.List[i].(*ast.IfStmt)
 		if !ok || is.Else == nil {
-			def("cardCond", "Ex", unknown("Cardinality: final if"))
-			def("cardThen", "Ex", unknown("Cardinality: final if"))
-			def("cardElse", "Ex", unknown("Cardinality: final if"))
+			vals["cardCond"] = (unknown("Cardinality: final if"))
+			vals["cardThen"] = (unknown("Cardinality: final if"))
+			vals["cardElse"] = (unknown("Cardinality: final if"))
 			return
 		}
-		def("cardCond", "Ex", s.tr(is.Cond, 0).ex)
-		def("cardThen", "Ex", retExpr(s, is.Body))
-		def("cardElse", "Ex", retExpr(s, is.Else))
+		vals["cardCond"] = (s.tr(is.Cond, 0).ex)
+		vals["cardThen"] = (retExpr(s, is.Body))
+		vals["cardElse"] = (retExpr(s, is.Else))
 	}()
 
 	// getAlphaMM: switch p { case k: return e … default: return e }
